@@ -174,6 +174,18 @@ class Env:
         raise ValueError(f"bad expr {j!r}")
 
     # ---------------------------------------------------------------- statements
+    # which spelling a statement uses (how-specific join verbs; the two call forms of `union`, the only verb that documents a
+    # direct call `union(left, right, …)` next to `left >> union(right, …)`) is a deterministic function of its id
+    def _form(self, st: dict) -> int:
+        import zlib
+
+        return zlib.crc32(str(st.get("id")).encode()) % 3
+
+    def _v(self, st, t, verb, *args, **kw):
+        if verb is pdt.union and (st.get("direct") if "direct" in st else self._form(st) == 0):
+            return verb(t, *args, **kw)
+        return t >> verb(*args, **kw)
+
     def apply(self, st: dict):
         op = st["op"]
         if op == "source":
@@ -182,42 +194,45 @@ class Env:
             return self.expr(st["e"])
         t = self.tables[st["src"]]
         if op == "select":
-            return t >> pdt.select(*[self.expr(c) if isinstance(c, dict) else c for c in st["cols"]])
+            return self._v(st, t, pdt.select, *[self.expr(c) if isinstance(c, dict) else c for c in st["cols"]])
         if op == "drop":
-            return t >> pdt.drop(*[self.expr(c) if isinstance(c, dict) else c for c in st["cols"]])
+            return self._v(st, t, pdt.drop, *[self.expr(c) if isinstance(c, dict) else c for c in st["cols"]])
         if op == "rename":
-            return t >> pdt.rename({(self.expr(k) if isinstance(k, dict) else k): v for k, v in st["map"]})
+            return self._v(st, t, pdt.rename, {(self.expr(k) if isinstance(k, dict) else k): v for k, v in st["map"]})
         if op == "mutate":
-            return t >> pdt.mutate(**{k: self.expr(v) for k, v in st["cols"]})
+            return self._v(st, t, pdt.mutate, **{k: self.expr(v) for k, v in st["cols"]})
         if op == "filter":
-            return t >> pdt.filter(*[self.expr(p) for p in st["preds"]])
+            return self._v(st, t, pdt.filter, *[self.expr(p) for p in st["preds"]])
         if op == "arrange":
-            return t >> pdt.arrange(*[self.expr(p) for p in st["by"]])
+            return self._v(st, t, pdt.arrange, *[self.expr(p) for p in st["by"]])
         if op == "group_by":
-            return t >> pdt.group_by(*[self.expr(c) if isinstance(c, dict) else c for c in st["cols"]], add=st.get("add", False))
+            return self._v(st, t, pdt.group_by, *[self.expr(c) if isinstance(c, dict) else c for c in st["cols"]], add=st.get("add", False))
         if op == "ungroup":
-            return t >> pdt.ungroup()
+            return self._v(st, t, pdt.ungroup)
         if op == "summarize":
-            return t >> pdt.summarize(**{k: self.expr(v) for k, v in st["cols"]})
+            return self._v(st, t, pdt.summarize, **{k: self.expr(v) for k, v in st["cols"]})
         if op == "slice_head":
-            return t >> pdt.slice_head(st["n"], offset=st.get("offset", 0))
+            return self._v(st, t, pdt.slice_head, st["n"], offset=st.get("offset", 0))
         if op == "alias":
-            return t >> pdt.alias(st.get("name"), keep_col_refs=st.get("keep_col_refs", False))
+            return self._v(st, t, pdt.alias, st.get("name"), keep_col_refs=st.get("keep_col_refs", False))
         if op == "collect":
-            return t >> pdt.collect(keep_col_refs=st.get("keep_col_refs", True))
+            return self._v(st, t, pdt.collect, keep_col_refs=st.get("keep_col_refs", True))
         if op == "join":
             on = st["on"]
             on = [self.expr(o) if isinstance(o, dict) else o for o in on] if isinstance(on, list) else (self.expr(on) if isinstance(on, dict) else on)
             right = self.tables[st["right"]]
             # iteration order of the name set used by the suffix loop (hash-seed dependent)
             self.last_set_order = list(set(right._cache.uuid_to_name[col._uuid] for col in right))
-            return t >> pdt.join(right, on, st["how"], suffix=st.get("suffix"))
+            if self._form(st) == 2:
+                # the how-specific spelling: inner_join / left_join / full_join
+                return t >> {"inner": pdt.inner_join, "left": pdt.left_join, "full": pdt.full_join}[st["how"]](right, on, suffix=st.get("suffix"))
+            return self._v(st, t, pdt.join, right, on, st["how"], suffix=st.get("suffix"))
         if op == "cross_join":
             from pydiverse.transform._internal.pipe.verbs import cross_join
 
-            return t >> cross_join(self.tables[st["right"]], suffix=st.get("suffix"))
+            return self._v(st, t, cross_join, self.tables[st["right"]], suffix=st.get("suffix"))
         if op == "union":
-            return t >> pdt.union(self.tables[st["right"]], distinct=st.get("distinct", False))
+            return self._v(st, t, pdt.union, self.tables[st["right"]], distinct=st.get("distinct", False))
         if op == "export":
             if self.backend in ("postgres", "mssql", "sqlite_nodata"):
                 import uuid as _uuid
